@@ -238,3 +238,11 @@ package ast
 //@ func (*TaskfileGraph).Merge
 //@   nosite graph.TopologicalSort                                                                              [C09]
 //@   site graph.StableTopologicalSort#1 requires arg0 == tfg.Graph                                             [C09]
+
+// When one parent includes the same file several times, those includes are merged in the order of the
+// parent's include statements: the list the reader collected (in goroutine completion order) is sorted first,
+// and the list that is merged is that sorted list.
+//@ ghost var sortedIncl []*Include scratch
+//@ func (*TaskfileGraph).Merge$1
+//@   site slices.SortStableFunc#1 ghost sortedIncl := arg0
+//@   site (*Taskfile).Merge#1 requires includes == sortedIncl && arg2 == includes[$i]                          [C09]
